@@ -298,6 +298,10 @@ func checkJSONArms(c *core.Ctx) {
 						ok := st.IterNow != "ELEMBAD"
 						st.Emit("REC", call.Pos(), args...)
 						return absint.Tuple{Elems: []absint.Val{absint.S("ELEM"), absint.Bool(ok)}}, true
+					case strings.Contains(callee, "fastjson.(*Value).") && (strings.HasSuffix(callee, ").Float64") || strings.HasSuffix(callee, ").Int") || strings.HasSuffix(callee, ").Int64") || strings.HasSuffix(callee, ").Uint") || strings.HasSuffix(callee, ").Uint64")):
+						// the tokenizer takes any run of number characters as TypeNumber; only the conversion validates
+						st.Emit("NUMCONV", call.Pos())
+						return absint.Tuple{Elems: []absint.Val{absint.S("NUM"), absint.S("NUMERR")}}, true
 					case callee == "time.Parse", callee == "time.ParseDuration":
 						// both outcomes
 						return nil, false
@@ -330,6 +334,19 @@ func checkJSONArms(c *core.Ctx) {
 					}
 					// ok == true
 					okTrue[idName]++
+					for _, e := range o.Events {
+						if e.Name == "NUMCONV" {
+							checked := false
+							for a, v := range o.Assumed {
+								if strings.Contains(a, "NUMERR") && ((strings.Contains(a, "==") && v) || (strings.Contains(a, "!=") && !v)) {
+									checked = true
+								}
+							}
+							if !checked {
+								bads = append(bads, fmt.Sprintf("%s: ok=true with the result of a number conversion whose error was not found to be nil (the tokenizer accepts \"1.2.3\" as a number; only the conversion rejects it, yielding 0)", ckey))
+							}
+						}
+					}
 					vc := valueClass(o, ids, o.Values[0])
 					if vc == "TRUE" || vc == "FALSE" || strings.HasPrefix(vc, "Boolean") {
 						vc = "Boolean"
